@@ -55,6 +55,11 @@ def make_check(name):
         if s == "exc" and s2 == "exc" and type(r1) is type(ret) and isinstance(r1, (ValueError, NotImplementedError)):
             r.label("both-raise:" + type(r1).__name__)       # the documented rejection of this input (both paths agree)
             return r
+        if (s == "exc" or s2 == "exc") and name.endswith("_cooc") and name != "tree_cooc":
+            from vv import cooc_common as cc
+            if cc.degenerate(name[:-5], spec["case"]):
+                r.label("degenerate-corpus")
+                return r
         if s == "exc" or s2 == "exc":
             e = r1 if s == "exc" else ret
             r.fail(exc_kind(e), site + (".fit_transform" if s == "exc" else ".fit"), exc_detail(e), one_sided=True)
